@@ -29,8 +29,14 @@ def op(o, a, b):
     return ('op', o, a, b)
 
 
+def neg(a):
+    return ('neg', a)
+
+
 EXPRS = [X, Y, n_(0), n_(1), op('+', X, n_(1)), op('-', X, n_(1)), op('+', X, Y), op('-', X, Y), op('-', Y, X), op('*', X, n_(2)),
-         op('*', X, Y), op('-', n_(2), X)]
+         op('*', X, Y), op('-', n_(2), X),
+         # unary minus in every operand position (the condition parser has no precedence: -a + b must not be printed for (-a) + b)
+         neg(X), op('+', neg(X), Y), op('-', neg(X), Y), op('*', neg(X), Y), neg(op('+', X, Y)), op('-', X, neg(Y)), neg(op('*', X, Y))]
 EXPRS2 = [op('-', op('-', X, Y), n_(1)), op('-', X, op('-', Y, n_(1))), op('+', op('*', X, Y), n_(1)), op('*', op('+', X, n_(1)), Y),
           op('*', X, op('+', Y, n_(1))), op('-', X, op('*', Y, n_(2))), op('+', X, op('-', Y, X)), op('-', op('+', X, Y), X)]
 
@@ -44,7 +50,8 @@ ASSERTS = [('true',), cmp_('==', X, n_(0)), cmp_('<=', X, Y), cmp_('==', op('+',
            cmp_('==', op('-', X, op('-', Y, n_(1))), n_(1)), cmp_('==', op('-', op('-', X, Y), n_(1)), n_(0)),
            cmp_('==', op('+', op('*', X, Y), n_(1)), n_(1)), ('not', cmp_('<=', X, Y)),
            ('and', cmp_('<=', X, Y), cmp_('<=', Y, n_(2))), ('imp', cmp_('==', X, n_(1)), cmp_('==', Y, n_(1))),
-           cmp_('==', op('*', op('+', X, n_(1)), n_(2)), Y), cmp_('<', op('-', X, op('*', Y, n_(2))), n_(1)), cmp_('>', X, Y), cmp_('>=', op('+', X, n_(1)), Y)]
+           cmp_('==', op('*', op('+', X, n_(1)), n_(2)), Y), cmp_('<', op('-', X, op('*', Y, n_(2))), n_(1)), cmp_('>', X, Y), cmp_('>=', op('+', X, n_(1)), Y),
+           cmp_('==', op('+', neg(X), Y), n_(1)), cmp_('==', Y, op('-', neg(n_(1)), X))]
 PRES = [('true',), cmp_('==', X, n_(0)), cmp_('<=', X, Y), cmp_('==', Y, n_(1))]
 
 
@@ -60,7 +67,7 @@ def atomic(tier):
 
 def small_atomic():
     return [('skip',), ('asg', 'x', op('+', X, n_(1))), ('asg', 'x', op('-', X, n_(1))), ('asg', 'y', op('-', Y, X)), ('asg', 'x', n_(0)),
-            ('asg', 'y', op('+', X, Y)), ('asg', 'x', op('-', X, op('-', Y, n_(1)))), ('asg', 'y', op('*', X, n_(2)))]
+            ('asg', 'y', op('+', X, Y)), ('asg', 'x', op('-', X, op('-', Y, n_(1)))), ('asg', 'y', op('*', X, n_(2))), ('asg', 'x', neg(X))]
 
 
 def programs(tier):
@@ -112,6 +119,8 @@ def ev_e(e, s):
         return s[e[1]]
     if k == 'num':
         return e[1]
+    if k == 'neg':
+        return -ev_e(e[1], s)
     a, b = ev_e(e[2], s), ev_e(e[3], s)
     return {'+': a + b, '-': a - b, '*': a * b}[e[1]]
 
@@ -167,6 +176,8 @@ def h_e(e):
         return expr.Var(e[1])
     if k == 'num':
         return expr.Const(e[1])
+    if k == 'neg':
+        return expr.Op('-', h_e(e[1]))
     return expr.Op(e[1], h_e(e[2]), h_e(e[3]))
 
 
